@@ -35,6 +35,7 @@ import (
 	"github.com/lindb/lindb/kv/version"
 	"github.com/lindb/lindb/pkg/imap"
 	"github.com/lindb/lindb/pkg/strutil"
+	"github.com/lindb/lindb/pkg/verifhook"
 	"github.com/lindb/lindb/sql/stmt"
 )
 
@@ -341,6 +342,7 @@ func (s *indexKVStore) getOrCreateValue(bucketID uint32, key []byte,
 	if createFn == nil {
 		return 0, false, false, nil
 	}
+	verifhook.Yield("index.kvstore.beforeCreateValue")
 	id, err = s.createValue(bucketID, key, createFn)
 	if err != nil {
 		return 0, false, false, err
